@@ -413,12 +413,55 @@ def bounded(K):
                 x = DAC(enc, pulse_shape=shape)
                 if list(map(int, ppm.SDD(x, M).data)) != list(map(int, enc.data)):
                     bad.append({'fn': 'SDD identity on noiseless waveform', 'M': M, 'shape': shape})
+        # textual containers with separators (the forms the library documents: '01 11 10', '0,1,1,1'): same result as the list of bits
+        rng = np.random.default_rng(3)
+        for M in (2, 4, 8, 16):
+            k = M.bit_length() - 1
+            for rep_ in range(4):
+                bits = [int(x) for x in rng.integers(0, 2, k * (3 + rep_))]
+                ref = ref_encode(bits, M)
+                for sep_name, text in (('space', ' '.join(map(str, bits))), ('comma', ','.join(map(str, bits))), ('grouped', ' '.join(''.join(map(str, bits[q:q + k])) for q in range(0, len(bits), k)))):
+                    n += 1
+                    seen.add(('text', M, rep_, sep_name))
+                    try:
+                        enc = list(map(int, ppm.PPM_ENCODER(text, M).data))
+                        enc_text = ' '.join(map(str, ref)) if sep_name != 'comma' else ','.join(map(str, ref))
+                        dec = list(map(int, ppm.PPM_DECODER(enc_text, M).data))
+                        hdd = list(map(int, ppm.HDD(enc_text, M).data))
+                        if enc != ref or dec != bits or hdd != ref:
+                            bad.append({'fn': 'text container with separators', 'M': M, 'separator': sep_name, 'text': text[:40]})
+                    except Exception as e:
+                        bad.append({'fn': 'text container with separators', 'M': M, 'separator': sep_name, 'raised': f'{type(e).__name__}: {e}'[:100]})
+        # lengths that are not whole symbols must be rejected (shorter or longer by less than a slot, by a slot, by more)
+        gv(sps=8, R=1e9)
+        for M in (2, 4):
+            full = 3 * M * 8
+            for delta in (-9, -8, -7, -3, -1, 1, 3, 7, 8, 9):
+                n += 1
+                seen.add(('ragged', M, delta))
+                x = rng.normal(size=full + delta)
+                try:
+                    ppm.SDD(x, M)
+                    bad.append({'fn': 'SDD accepts a record that is not a whole number of symbols', 'M': M, 'sps': 8, 'len': full + delta})
+                except ValueError:
+                    pass
+                except Exception as e:
+                    bad.append({'fn': 'SDD wrong exception for a ragged record', 'M': M, 'len': full + delta, 'raised': type(e).__name__})
+            for delta in (-1, 1, M - 1):
+                n += 1
+                try:
+                    ppm.HDD([0, 1] * ((3 * M + delta + 1) // 2) if (3 * M + delta) % 2 == 0 else ([0, 1] * (3 * M + delta))[:3 * M + delta], M)
+                    bad.append({'fn': 'HDD accepts a sequence that is not a whole number of symbols', 'M': M, 'len': 3 * M + delta})
+                except ValueError:
+                    pass
+                except Exception as e:
+                    bad.append({'fn': 'HDD wrong exception for a ragged sequence', 'M': M, 'raised': type(e).__name__})
         gv.clean()
         return {'n': n, 'distinct': len(seen), 'bad': bad[:5], 'nbad': len(bad)}
     st, r = native(work, 3000)
     ok = st == 'ok' and r['nbad'] == 0
     K.bounded('exhaustive_small', ok, {'evaluations': r['n'] if st == 'ok' else 0, 'distinct_nontrivial': r['distinct'] if st == 'ok' else 0,
-                                       'bound': f'all bit strings of length <= {L} for M in 2,4,8,16 (5 container forms on a subset); all slot patterns <= 16 slots for M <= 8; SDD on noiseless NRZ/Gaussian waveforms',
+                                       'bound': f'all bit strings of length <= {L} for M in 2,4,8,16 (5 container forms on a subset); all slot patterns <= 16 slots for M <= 8; SDD on noiseless NRZ/Gaussian waveforms; textual containers with separators; ragged lengths (+-1..9 samples around whole symbols) rejected',
                                        'samples': [{'M': 4, 'bits': '0110', 'encoded': '01000010'}], 'failures': r if st == 'ok' else [st, r]})
 
 
